@@ -402,6 +402,9 @@ impl Exec {
                     self.state_changes += 1;
                 }
                 self.model = dec.msg.clone();
+                if info.mutator && (0..3).any(|s| self.model.sec[s].len() >= 255) {
+                    bump(&mut self.stats, "probe:mutation_with_section_of_255_or_more");
+                }
                 if info.is_insert && bytes.len() > MAX_UNCOMPRESSED {
                     return Err(self.viol(
                         &["C10"],
